@@ -1039,7 +1039,8 @@ class RewriteContext:
                 if force_ref is not None:
                     new.props.update(force_ref=force_ref)
                 ref_name = original.props.get("reference_name")
-                if isinstance(ref_name, str):
+                if isinstance(ref_name, str) and new.kind != "symbol":
+                    # symbols (function arguments) are always referenced by their own names
                     new.props.update(reference_name=ref_name)
             return new
         else:
